@@ -51,6 +51,9 @@ func opHasRsp(op histOp) bool {
 
 // histJudge applies the oracles of property prop to one execution.
 func histJudge(prop string, cfg histCfg, o *histObs) []finding {
+	if j, ok := histJudges[prop]; ok {
+		return j(cfg, o)
+	}
 	var out []finding
 	add := func(key, f string, a ...any) { out = append(out, finding{prop + "/" + key, fmt.Sprintf(f, a...)}) }
 	mode := "sessionless"
@@ -450,3 +453,7 @@ func histOutcome(o *histObs) string {
 	}
 	return "all-first-attempt-success"
 }
+
+// histJudges holds the oracles of the other history-based properties, so the
+// shared replayer can re-judge a recorded execution.
+var histJudges = map[string]func(histCfg, *histObs) []finding{}
